@@ -173,6 +173,23 @@ class Inliner:
             for ai, a in enumerate(args):
                 st.append({"k": "assign", "dst": {"l": lb + 1 + ai, "p": []}, "rv": _use(a), "line": line, "exp": False,
                            "inl_arg": key})
+                # an argument that is a borrow of a local place of the caller made just for this call (`helper(&mut a)`)
+                if a["k"] == "move" and not a["place"]["p"]:
+                    d = _single_def(blocks, a["place"]["l"])
+                    for _ in range(4):
+                        # a reborrow `&mut *t` of `t = &mut P` is a borrow of P
+                        if d is not None and d["k"] == "ref" and len(d["place"]["p"]) >= 1 and d["place"]["p"][0] and d["place"]["p"][0][0] == "deref":
+                            d0 = _single_def(blocks, d["place"]["l"])
+                            if d0 is not None and d0["k"] == "ref" and not any(e and e[0] in ("deref", "index") for e in d0["place"]["p"]):
+                                d = {"k": "ref", "mut": d.get("mut") and d0.get("mut"),
+                                     "place": {"l": d0["place"]["l"], "p": copy.deepcopy(d0["place"]["p"]) + copy.deepcopy(d["place"]["p"][1:])}}
+                                continue
+                        break
+                    if d is not None and d["k"] == "ref" and not any(e and e[0] in ("deref", "index") for e in d["place"]["p"]):
+                        P = copy.deepcopy(d["place"])
+                        for blk in cb:
+                            _rewrite_ref_param(blk["stmts"], lb + 1 + ai, P, bool(d.get("mut")))
+                            _rewrite_ref_param({k: v for k, v in blk["term"].items() if k != "callee"}, lb + 1 + ai, P, bool(d.get("mut")))
         else:
             env_ty = (cl[1].get("ty") or "") if len(cl) > 1 else ""
             a0 = args[0]
@@ -463,6 +480,31 @@ def _rewrite_captured(x, env_local, env_by_ref, caps):
     elif isinstance(x, list):
         for v in x:
             _rewrite_captured(v, env_local, env_by_ref, caps)
+
+
+def _rewrite_ref_param(x, param_local, P, mut):
+    """inside an inlined helper body: the parameter is `&mut P` / `&P` of a place of the caller, so `(*param)..` is `P..` itself
+    and a copy of the parameter is a fresh borrow of P - the analyses keyed by places (vector lengths, tail drains, in-place
+    edits) then see the caller's variable instead of an opaque reference"""
+    if isinstance(x, dict):
+        if "l" in x and "p" in x and isinstance(x["p"], list) and isinstance(x["l"], int):
+            if x["l"] == param_local and x["p"] and x["p"][0] and x["p"][0][0] == "deref":
+                x["l"] = P["l"]
+                x["p"] = copy.deepcopy(P["p"]) + x["p"][1:]
+            return
+        if x.get("k") == "assign" and isinstance(x.get("rv"), dict) and x["rv"].get("k") == "use" \
+                and x["rv"]["op"].get("k") in ("copy", "move") and x["rv"]["op"]["place"]["l"] == param_local \
+                and not x["rv"]["op"]["place"]["p"]:
+            x["rv"] = {"k": "ref", "mut": mut, "fake": False, "place": copy.deepcopy(P)}
+            _rewrite_ref_param(x["dst"], param_local, P, mut)
+            return
+        for k, v in x.items():
+            if k in ("callee", "fn"):
+                continue
+            _rewrite_ref_param(v, param_local, P, mut)
+    elif isinstance(x, list):
+        for v in x:
+            _rewrite_ref_param(v, param_local, P, mut)
 
 
 def _closure_of_operand(blocks, op, depth=0):
